@@ -74,6 +74,11 @@ func (s *CollapsingHighestDenseStore) extendRange(newMinIndex, newMaxIndex int) 
 	if s.IsEmpty() {
 		initialLength := s.getNewLength(newMinIndex, newMaxIndex)
 		s.bins = append(s.bins, make([]float64, initialLength)...)
+		if newMaxIndex-newMinIndex+1 > len(s.bins) {
+			// The requested range is wider than the store: start collapsed instead of indexing out of the array.
+			newMaxIndex = newMinIndex + len(s.bins) - 1
+			s.isCollapsed = true
+		}
 		s.offset = newMinIndex
 		s.minIndex = newMinIndex
 		s.maxIndex = newMaxIndex
